@@ -2,7 +2,7 @@
    Property theorems only; model in Gw/Merge.v, proofs in Proofs/MergeProofs.v, Proofs/MergeUnion.v. *)
 From Coq Require Import String List Bool Permutation.
 From GW Require Import Base.Res Base.GoStr Gql.Schema Gw.Merge Gw.MergeCheck
-  Proofs.MergeBasics Proofs.MergeProofs Proofs.MergeUnion Proofs.DirEq.
+  Proofs.MergeBasics Proofs.MergeProofs Proofs.MergeUnion Proofs.DirEq Proofs.MergeSym.
 Import ListNotations.
 Open Scope string_scope.
 Open Scope list_scope.
@@ -21,7 +21,8 @@ Print Assumptions C10_result_independent_of_order.
 (* Whether construction succeeds (partial: for the incompatibilities the property C09 lists).
    If some order of the services succeeds, no two definitions of one name are incompatible; that
    conclusion does not mention the order, so by C09 no order can fail because of such a pair.
-   Not proved: that a failure caused by differing *applied directives* is order independent. *)
+   Applied directives: see C10_applied_directives_compared_symmetrically and the theorem for two
+   definitions below; for three and more services the statement is decided per case (c10_holds). *)
 Theorem C10_success_excludes_incompatibility_partial : forall all out a b,
   merge_types all = Ok out -> Forall wf_def all ->
   In a all -> In b all -> df_name a = df_name b -> is_internal_name (df_name a) = false ->
@@ -47,6 +48,21 @@ Example C10_repeated_directives :
   dirlists_equal [tag "a"; tag "a"] [tag "a"; tag "b"] = false /\ dirlists_equal [tag "a"; tag "b"] [tag "a"; tag "a"] = false /\
   dirlists_equal [tag "a"; tag "b"] [tag "a"; tag "b"] = true /\ dirlists_equal [tag "a"; tag "b"] [tag "b"; tag "a"] = false.
 Proof. vm_compute. repeat split. Qed.
+
+(* Whether two definitions of one name merge does not depend on which of them comes first: for
+   every kind (objects, interfaces, inputs, enums, unions, scalars), with field and argument
+   names, enum values and union members distinct within each definition (GraphQL validation).  For
+   two services this is the success half of the property at every shared name. *)
+Theorem C10_two_definitions_merge_in_both_orders_or_in_neither : forall p n,
+  dwf p -> dwf n -> is_internal_name (df_name p) = false -> is_internal_name (df_name n) = false ->
+  is_ok (merge2 p n) = is_ok (merge2 n p).
+Proof.
+  intros p n Wp Wn Ip In_.
+  destruct (is_ok (merge2 p n)) eqn:E1; destruct (is_ok (merge2 n p)) eqn:E2; try reflexivity.
+  - rewrite (merge2_ok_sym p n Wp Wn Ip In_ E1) in E2. discriminate.
+  - rewrite (merge2_ok_sym n p Wn Wp In_ Ip E2) in E1. discriminate.
+Qed.
+Print Assumptions C10_two_definitions_merge_in_both_orders_or_in_neither.
 
 (* the pairwise relation the theorems rest on is symmetric, so it cannot prefer an order *)
 Theorem C10_compatibility_symmetric : forall a b, drel a b -> drel b a.
